@@ -5,6 +5,7 @@ import NGF.Proofs.Locations
 import NGF.Proofs.Pipeline
 import NGF.Proofs.PipelineRefine
 import NGF.Proofs.PipelineWinner
+import NGF.Proofs.PipelineTlsCompose
 import NGF.Generated.RoutingFacts
 /-
 C02 — requests are routed exactly as the attached Routes prescribe: property theorems about the cores the
@@ -673,6 +674,140 @@ example : inert exGw exForeign := inert_when_parent_elsewhere (by decide)
 
 end pipeline
 
+/-! ### HTTPS listeners: the refinement theorem by projection (Model/PipelineTls.genT of the C16 builder, read-only;
+Model/PipelineTlsEval.lean: `nginxEvalConfT`, `routeT`, `hostDNS`)
+
+`genT s` projects the cluster state to its valid HTTP / valid HTTPS listeners and reuses `Pipeline.gen` for both; so the
+HTTP theorem, applied to `httpsPart s`, does the routing, and what is proved here on top is the TLS front of
+servers_template.go: the default SSL server rejects the handshake exactly when no valid HTTPS listener of the port
+covers the SNI name, servers are chosen by SNI and by Host, and `if ($ssl_server_name != $host) return 421`. -/
+section https
+open NGF.Pipeline NGF.PipelineTls
+
+/-- what `validateHostname` (graph/validation.go) accepts is never the regex server name `~^`; hence the fragment with
+real hostnames (`inFragmentDNS`) needs no `namesPlain` -/
+theorem hostDNS_never_catchAll {h : Str} (hd : hostDNS h = true) : h ≠ NGF.NginxEval.catchAll :=
+  hostDNS_ne_catchAll hd
+
+theorem namesPlain_from_hostDNS {s : Scenario} (h : hostsDNS s = true) : namesPlain s = true :=
+  namesPlain_of_hostsDNS h
+
+/-- **`route_refines_spec_fragment` without `namesPlain`**: hostnames as the real validator accepts them. -/
+theorem route_refines_spec_fragment_dns (s : Scenario) (q : Req)
+    (hf : inFragmentDNS s = true) (hn : noShadow (gen s) = true) (hr : routesHaveRules s = true)
+    (hq : reqOK q = true) : nginxEvalConf (gen s) q = routeF s q := by
+  simp only [inFragmentDNS, Bool.and_eq_true] at hf
+  exact refines_fragment s q hf.1 hn (namesPlain_of_hostsDNS hf.2) hr hq
+
+/-- the specification's valid listeners are the generator's: `routeT` is written without `validHttp`/`validHttps`/`genT` -/
+theorem spec_valid_listeners_are_the_generators (s : ScenarioT) :
+    specScenario true s = httpsPart s ∧ specScenario false s = httpPart s :=
+  ⟨specScenario_true s, specScenario_false s⟩
+
+/-- **The end-to-end refinement theorem on HTTP and HTTPS listeners.** For EVERY `ScenarioT` of the fragment and EVERY
+well-formed request — plain HTTP, or over TLS with SNI = Host — `nginxEvalConfT (genT s) q = routeT s q`: refused /
+400 on a port without valid listener of the protocol, handshake rejected when no valid HTTPS listener of the port covers
+the SNI name, else exactly the routing Gateway API prescribes over the valid listeners of the protocol.
+`refineOKT s` = `inFragmentT s`, hostnames pass `validateHostname`, `routesHaveRules`, `noShadow` of both projections;
+`reqOKT s q` = `reqOK q.req` and, over TLS, `sniServed` (excludes the known finding
+`C02:https-sni-covered-by-listener-but-no-server-closed`) and `noRoutelessShadow` (the Listener-Isolation SHOULD: the
+404 server of a route-less HTTPS listener; the full oracle accepts both outcomes). -/
+theorem route_refines_spec_https (s : ScenarioT) (q : ReqT) (hs : refineOKT s = true) (hq : reqOKT s q = true)
+    (hsh : q.tls = true → q.sni = q.req.host) : nginxEvalConfT (genT s) q = routeT s q :=
+  refines_https s q hs hq hsh
+
+/-- plain-HTTP requests on `genT`: corollary (`http_part_unchanged` of C16 + the HTTP theorem) -/
+theorem route_refines_spec_plain_on_genT (s : ScenarioT) (q : Req) (hs : refineOKT s = true) (hq : reqOK q = true) :
+    nginxEvalConfT (genT s) ⟨false, [], q⟩ = routeT s ⟨false, [], q⟩ :=
+  refines_https s ⟨false, [], q⟩ hs (by simp [reqOKT, hq]) (by intro h; cases h)
+
+/-- **SNI ≠ Host.** When the SNI name and the Host header name different hosts that both have a generated server on the
+port, NGINX answers 421 Misdirected Request — the request is never handed to the backend of the Host's routes (another
+tenant's) over a connection authenticated for the SNI name — and the specification says 421 too. -/
+theorem sni_host_mismatch_421 (s : ScenarioT) (q : ReqT) (hs : refineOKT s = true) (htls : q.tls = true)
+    (hne : q.sni ≠ q.req.host)
+    (hsni : NGF.NginxEval.isWildName q.sni = false ∧ q.sni ≠ NGF.NginxEval.catchAll) (hslen : q.sni.length < 100000)
+    (hsne : q.sni ≠ [])
+    (hhost : NGF.NginxEval.isWildName q.req.host = false ∧ q.req.host ≠ NGF.NginxEval.catchAll)
+    (hc1 : ∃ n ∈ sslNames (genT s) q.req.port, nameCovers n q.sni = true)
+    (hc2 : ∃ n ∈ sslNames (genT s) q.req.port, nameCovers n q.req.host = true) :
+    nginxEvalConfT (genT s) q = .plain (.status 421) ∧ routeT s q = .plain (.status 421) :=
+  mismatch_421 s q hs htls hne hsni hslen hsne hhost hc1 hc2
+
+/-- every SSL server of `genT s` presents a certificate, and its name belongs to a valid HTTPS listener covering every
+concrete host the name stands for -/
+theorem ssl_server_name_has_covering_listener {s : ScenarioT} {gT : GatewayT} (hw : winnerT s = some gT)
+    (hs : refineOKT s = true) {p : Nat} {n q : Str} (hq : NGF.Hostname.isWild q = false)
+    (hn : n ∈ sslNames (genT s) p) (hc : nameCovers n q = true) :
+    ∃ l ∈ gT.listeners, validHttps s gT l = true ∧ l.base.port = p ∧ Pipeline.covers l.base.host q = true :=
+  ssl_name_listener hw (scenOK_https hw (refineOKT_unpack hs)) (listeners_not_catchAll hw (refineOKT_unpack hs)) hq hn hc
+
+/-! non-vacuity and necessity, by evaluation -/
+
+def tS (x : String) : Str := x.toList
+def tSecrets : List Tls.SecretObj := [⟨tS "default", tS "tls-a", true, true, tS "cert-a", tS "key-a"⟩, ⟨tS "default", tS "tls-b", true, true, tS "cert-b", tS "key-b"⟩]
+def tL (name : String) (port : Nat) (host : String) (https : Bool) (cert : Option String) : ListenerT :=
+  { base := ⟨tS name, port, tS host, true⟩, https := https, cert := cert.map fun c => (tS "default", tS c) }
+def tRoute (name : String) (sect : Option String) (hosts : List String) (path backend : String) : Route :=
+  { ns := tS "default", name := tS name, age := 3, parents := [⟨tS "default", tS "gw", sect.map tS⟩],
+    hostnames := hosts.map tS, valid := true,
+    rules := [⟨[exMatch path false []], .forward [⟨tS backend, 1, true⟩]⟩] }
+def tScen (ls : List ListenerT) (rs : List Route) : ScenarioT :=
+  { cls := tS "nginx", ctlr := tS "ctl", classes := [⟨tS "nginx", tS "ctl"⟩],
+    gateways := [{ ns := tS "default", name := tS "gw", cls := tS "nginx", age := 2, listeners := ls }],
+    routes := rs, secrets := tSecrets, grants := [] }
+def tReq (tls : Bool) (port : Nat) (sni host path : String) : ReqT :=
+  { tls := tls, sni := tS sni, req := { port := port, host := tS host, path := tS path, method := tS "GET", headers := [], query := [] } }
+
+/-- an HTTPS wildcard listener and an HTTP listener, one route on both -/
+def tEx : ScenarioT :=
+  tScen [tL "https" 443 "*.example.com" true (some "tls-a"), tL "http" 80 "" false none]
+    [tRoute "r" none ["cafe.example.com"] "/" "default_svc0_80"]
+
+#guard refineOKT tEx
+#guard [tReq true 443 "cafe.example.com" "cafe.example.com" "/x", tReq false 80 "" "cafe.example.com" "/x",
+        tReq true 443 "" "cafe.example.com" "/", tReq true 80 "cafe.example.com" "cafe.example.com" "/",
+        tReq false 443 "" "cafe.example.com" "/", tReq true 8443 "a.b" "a.b" "/"].all fun q =>
+      reqOKT tEx q && nginxEvalConfT (genT tEx) q == routeT tEx q
+#guard nginxEvalConfT (genT tEx) (tReq true 443 "cafe.example.com" "cafe.example.com" "/x")
+        == .plain (.proxy [(tS "default_svc0_80", 10000)])
+#guard nginxEvalConfT (genT tEx) (tReq true 443 "" "cafe.example.com" "/") == .closed
+#guard nginxEvalConfT (genT tEx) (tReq true 80 "cafe.example.com" "cafe.example.com" "/") == .plain (.status 400)
+
+-- `sniServed` is NECESSARY (known finding 7): the listener covers foo.example.com, no server does — handshake rejected
+-- where the specification answers 404
+#guard refineOKT tEx && !sniServed tEx (tReq true 443 "foo.example.com" "foo.example.com" "/")
+#guard nginxEvalConfT (genT tEx) (tReq true 443 "foo.example.com" "foo.example.com" "/") == .closed
+#guard routeT tEx (tReq true 443 "foo.example.com" "foo.example.com" "/") == .plain (.status 404)
+
+/-- a route-less HTTPS listener `cafe.example.com` beside a routed wildcard listener -/
+def tIso : ScenarioT :=
+  tScen [tL "cafe" 443 "cafe.example.com" true (some "tls-b"), tL "wild" 443 "*.example.com" true (some "tls-a")]
+    [tRoute "r" (some "wild") [] "/" "default_svc0_80"]
+
+-- `noRoutelessShadow` is NECESSARY: NGF's 404 server of the route-less listener isolates its hostname (Listener
+-- Isolation, a SHOULD), the non-isolated reading `routeT` routes through the wildcard listener
+#guard refineOKT tIso && sniServed tIso (tReq true 443 "cafe.example.com" "cafe.example.com" "/") &&
+  !noRoutelessShadow tIso (tReq true 443 "cafe.example.com" "cafe.example.com" "/")
+#guard nginxEvalConfT (genT tIso) (tReq true 443 "cafe.example.com" "cafe.example.com" "/") == .plain (.status 404)
+#guard routeT tIso (tReq true 443 "cafe.example.com" "cafe.example.com" "/") == .plain (.proxy [(tS "default_svc0_80", 10000)])
+#guard reqOKT tIso (tReq true 443 "x.example.com" "x.example.com" "/") &&
+  nginxEvalConfT (genT tIso) (tReq true 443 "x.example.com" "x.example.com" "/") == routeT tIso (tReq true 443 "x.example.com" "x.example.com" "/")
+
+-- `sni_host_mismatch_421` is not vacuous: two tenants on one port
+def tTwo : ScenarioT :=
+  tScen [tL "a" 443 "a.example.com" true (some "tls-a"), tL "b" 443 "b.example.com" true (some "tls-b")]
+    [tRoute "ra" (some "a") [] "/" "default_a_80", tRoute "rb" (some "b") [] "/" "default_b_80"]
+#guard refineOKT tTwo
+#guard nginxEvalConfT (genT tTwo) (tReq true 443 "a.example.com" "b.example.com" "/") == .plain (.status 421)
+#guard routeT tTwo (tReq true 443 "a.example.com" "b.example.com" "/") == .plain (.status 421)
+#guard nginxEvalConfT (genT tTwo) (tReq true 443 "b.example.com" "b.example.com" "/") == .plain (.proxy [(tS "default_b_80", 10000)])
+
+example : hostDNS "*.example.com".toList = true ∧ hostDNS "cafe.example.com".toList = true ∧ hostDNS "~^".toList = false ∧
+    hostDNS "-x.example.com".toList = false ∧ hostDNS "UPPER.example.com".toList = false := by decide
+
+end https
+
 /-! ### regenerated facts: the source text the models mirror (NGF/Generated/RoutingFacts.lean, rewritten from the
 current /repo on every run). A changed statement breaks the expectation lemma next to the model it pins. -/
 section facts
@@ -721,6 +856,23 @@ theorem facts_findAcceptedHostnames : findAcceptedHostnamesStmts =
    "var result []string",
    "for _, h := range routeHostnames { routeHost := string(h) if match(hostname, routeHost) { result = append(result, GetMoreSpecificHostname(hostname, routeHost)) } }",
    "return result"] := rfl
+
+/-- `validateHostname` (graph/validation.go), what `PipelineTls.hostDNS` mirrors: non-empty; `*.`-prefixed names through
+IsWildcardDNS1123Subdomain, all others through IsDNS1123Subdomain; and it is what both the listener hostname and every
+route hostname go through -/
+theorem facts_validateHostname :
+    validateHostnameStmts =
+      ["if hostname == \"\" { return errors.New(\"cannot be empty string\") }",
+       "if strings.HasPrefix(hostname, \"*.\") { msgs := validation.IsWildcardDNS1123Subdomain(hostname) if len(msgs) > 0 { combined := strings.Join(msgs, \",\") return errors.New(combined) } return nil }",
+       "msgs := validation.IsDNS1123Subdomain(hostname)",
+       "if len(msgs) > 0 { combined := strings.Join(msgs, \",\") return errors.New(combined) }",
+       "return nil"] ∧
+    validateHostnamesStmts[1]? = some "for i := range hostnames { if err := validateHostname(string(hostnames[i])); err != nil { allErrs = append(allErrs, field.Invalid(path.Index(i), hostnames[i], err.Error())) continue } }" ∧
+    validateListenerHostnameStmts.take 4 =
+      ["if listener.Hostname == nil { return nil, true }", "h := string(*listener.Hostname)",
+       "if h == \"\" { return nil, true }",
+       "if err := validateHostname(h); err != nil { path := field.NewPath(\"hostname\") valErr := field.Invalid(path, listener.Hostname, err.Error()) return staticConds.NewListenerUnsupportedValue(valErr.Error()), false }"] := by
+  refine ⟨rfl, rfl, rfl⟩
 
 /-- the catch-all server name is the one the models use -/
 theorem facts_wildcardHostname :
